@@ -159,10 +159,149 @@ def list_case(case):
                 observed=dict(after=after, events=[repr(e[0]) for e in events], exc=got_exc.__name__ if got_exc else None))
 
 
+def dict_case(case):
+    from traits.trait_dict_object import TraitDict
+    kv, kexc = mk_validator(case.get("key_validator", {}))
+    vv, vexc = mk_validator(case.get("value_validator", {}))
+    contents = {k: v for k, v in case["contents"]}
+    events = []
+    td = TraitDict(contents)
+    td.key_validator, td.value_validator = kv, vv
+    td.notifiers.append(lambda d, r, a, c: events.append(((dict(r), dict(a), dict(c)), dict(d))))
+    ref = dict(contents)
+    op, args = case["op"], case.get("args", {})
+    violated = []
+    UNSET = object()
+    pairs = [tuple(p) for p in args.get("pairs", [])]
+
+    def arg_for(validated):
+        if args.get("mapping"):
+            return dict(validated)
+        return list(validated)
+
+    ref_exc, ref_res = None, None
+    try:
+        probe = dict(ref)
+        if op == "__setitem__":
+            probe[kv(args["key"])] = vv(args["value"])
+        elif op == "__delitem__":
+            del probe[args["key"]]
+        elif op == "clear":
+            probe.clear()
+        elif op == "pop":
+            ref_res = probe.pop(args["key"], *([args["default"]] if "default" in args else []))
+        elif op == "popitem":
+            ref_res = "popitem"
+            probe.popitem()
+        elif op == "setdefault":
+            if args["key"] in probe:          # documented reading: raw containment first
+                ref_res = probe[args["key"]]
+            else:
+                val = vv(args.get("value"))
+                probe[kv(args["key"])] = val
+                ref_res = val
+        elif op in ("update", "__ior__"):
+            probe.update([(kv(k), vv(v)) for k, v in pairs])
+        ref = probe
+    except Exception as e:
+        ref_exc = type(e)
+    got_exc, got_res = None, None
+    try:
+        if op == "__setitem__":
+            td[args["key"]] = args["value"]
+        elif op == "__delitem__":
+            del td[args["key"]]
+        elif op == "clear":
+            td.clear()
+        elif op == "pop":
+            got_res = td.pop(args["key"], *([args["default"]] if "default" in args else []))
+        elif op == "popitem":
+            got_res = td.popitem()
+        elif op == "setdefault":
+            got_res = td.setdefault(args["key"], *([args["value"]] if "value" in args else []))
+        elif op == "update":
+            td.update(arg_for(pairs))
+        elif op == "__ior__":
+            td |= arg_for(pairs)
+    except Exception as e:
+        got_exc = type(e)
+    after = dict(td)
+    if got_exc is None:
+        if ref_exc is not None:
+            violated.append("accepted an operation that dict/validators reject (%s)" % ref_exc.__name__)
+        elif op == "popitem":
+            k, v = got_res
+            if contents.get(k, UNSET) != v or after != {a: b for a, b in contents.items() if a != k}:
+                violated.append("popitem result/contents inconsistent")
+        else:
+            if after != ref:
+                violated.append("contents differ from dict: %r vs %r" % (after, ref))
+            if op in ("pop", "setdefault") and got_res != ref_res:
+                violated.append("result differs from dict: %r vs %r" % (got_res, ref_res))
+        if len(events) > 1:
+            violated.append("more than one event")
+        if not events and after != contents:
+            violated.append("contents changed without an event")
+        for ((r, a, c), at) in events:
+            if at != after:
+                violated.append("event emitted before the mutation was complete")
+            if not (r or a or c):
+                violated.append("event with all three parts empty")
+            for k, v in a.items():
+                if k in contents or after.get(k, UNSET) != v:
+                    violated.append("added key %r was present before or does not hold the given value" % (k,))
+            for k, v in c.items():
+                if contents.get(k, UNSET) != v or k not in after:
+                    violated.append("changed key %r did not hold the given old value" % (k,))
+            for k, v in r.items():
+                if contents.get(k, UNSET) != v or k in after:
+                    violated.append("removed key %r did not hold the given value or is still present" % (k,))
+            recon = {k: v for k, v in after.items() if k not in a}
+            recon.update(c)
+            recon.update(r)
+            if recon != contents:
+                violated.append("previous contents not reconstructible: %r vs %r" % (recon, contents))
+    else:
+        if got_exc is not ref_exc:
+            violated.append("raised %s where dict/validators give %s" % (got_exc.__name__, ref_exc.__name__ if ref_exc else "no exception"))
+        if after != contents:
+            violated.append("failing operation changed the contents: %r -> %r" % (contents, after))
+        if events:
+            violated.append("failing operation notified")
+    return dict(reproduced=bool(violated), violated=violated,
+                observed=dict(after=sorted(after.items()), events=[repr(e[0]) for e in events],
+                              exc=got_exc.__name__ if got_exc else None))
+
+
+def dict_event_factory_case(case):
+    from traits.observation._dict_change_event import dict_event_factory
+    from traits.trait_dict_object import TraitDict
+    contents, removed, added, changed = [dict(map(tuple, case[n])) for n in ("contents", "removed", "added", "changed")]
+    td = TraitDict(contents)
+    r0, a0, c0, m0 = dict(removed), dict(added), dict(changed), dict(contents)
+    violated = []
+    try:
+        ev = dict_event_factory(td, removed, added, changed)
+    except Exception as e:
+        return dict(reproduced=True, violated=["raised %r" % (e,)])
+    exp_removed = dict(r0)
+    exp_removed.update(c0)
+    exp_added = dict(a0)
+    exp_added.update({k: m0[k] for k in c0})
+    if ev.removed != exp_removed:
+        violated.append("event.removed is not removed + old values of changed keys")
+    if ev.added != exp_added:
+        violated.append("event.added is not added + new values of changed keys")
+    for nm, now, before in (("removed", removed, r0), ("added", added, a0), ("changed", changed, c0), ("trait_dict", dict(td), m0)):
+        if now != before:
+            violated.append("argument `%s` was modified: %r -> %r (it is shared with every other notifier of the emission)" % (nm, before, now))
+    return dict(reproduced=bool(violated), violated=violated)
+
+
 def main():
     case = json.loads(sys.stdin.read())
     fam = case.get("family", "list")
-    out = {"list": list_case}[fam](case)
+    out = {"list": list_case, "dict": dict_case, "dict_event_factory": dict_event_factory_case}[fam](case)
     print(json.dumps(out, default=repr))
 
 
